@@ -99,6 +99,10 @@ func (g *GoChannel) Publish(topic string, messages ...*message.Message) error {
 
 	if g.config.Persistent {
 		g.persistedMessagesLock.Lock()
+		if g.persistedMessages == nil {
+			g.persistedMessagesLock.Unlock()
+			return errors.New("Pub/Sub closed")
+		}
 		if _, ok := g.persistedMessages[topic]; !ok {
 			g.persistedMessages[topic] = make([]*message.Message, 0)
 		}
@@ -304,7 +308,9 @@ func (g *GoChannel) Close() error {
 	g.subscribersWg.Wait()
 
 	g.logger.Info("Pub/Sub closed", nil)
+	g.persistedMessagesLock.Lock()
 	g.persistedMessages = nil
+	g.persistedMessagesLock.Unlock()
 
 	return nil
 }
